@@ -974,6 +974,25 @@ pub mod user {
         fn comps(&self) -> Vec<u64> { self.0.iter().map(|x| (*x as f64).to_bits()).collect() }
     }
 
+    /// The same through `Serializer::collect_seq`, the provided method that `Vec`, slices and the std collections
+    /// serialize themselves with (its default goes through `serialize_seq` + `end`, where the adapter appends alpha).
+    #[derive(PartialEq, Debug, Clone, Copy)]
+    pub struct SeqColorCollected(pub [f32; 3]);
+    impl Serialize for SeqColorCollected {
+        fn serialize<S: serde::Serializer>(&self, serializer: S) -> Result<S::Ok, S::Error> {
+            serializer.collect_seq(self.0.iter())
+        }
+    }
+    impl<'de> Deserialize<'de> for SeqColorCollected {
+        fn deserialize<D: serde::Deserializer<'de>>(deserializer: D) -> Result<Self, D::Error> {
+            SeqColor::deserialize(deserializer).map(|c| SeqColorCollected(c.0))
+        }
+    }
+    impl Case for SeqColorCollected {
+        fn build(v: &[f64]) -> Self { SeqColorCollected([v[0] as f32, v[1] as f32, v[2] as f32]) }
+        fn comps(&self) -> Vec<u64> { self.0.iter().map(|x| (*x as f64).to_bits()).collect() }
+    }
+
     /// Named fields, one of them left out of the output when it is zero: the derived impl then calls
     /// `SerializeStruct::skip_field`, which the alpha adapter has to forward.
     #[derive(Serialize, Deserialize, PartialEq, Debug, Clone, Copy)]
@@ -1038,6 +1057,7 @@ pub mod user {
     alpha_of!((f32, f32), 2);
     alpha_of!(SeqColor, 3);
     alpha_of!(SeqColorNoLen, 3);
+    alpha_of!(SeqColorCollected, 3);
     alpha_of!(SkipIfColor, 3);
 
     macro_rules! user_desc {
@@ -1065,6 +1085,7 @@ pub mod user {
     user_desc!(PAIR, PAIR_A, (f32, f32), "(f32,f32)", "", Shape::Tuple, &[], 2);
     user_desc!(SEQ, SEQ_A, SeqColor, "SeqColor", "", Shape::Seq, &[], 3);
     user_desc!(SEQNL, SEQNL_A, SeqColorNoLen, "SeqColorNoLen", "", Shape::Seq, &[], 3);
+    user_desc!(SEQCOL, SEQCOL_A, SeqColorCollected, "SeqColorCollected", "", Shape::Seq, &[], 3);
     user_desc!(SKIPIF, SKIPIF_A, SkipIfColor, "SkipIfColor", "SkipIfColor", Shape::Struct, &["first", "second", "third"], 3, skip: 1);
 }
 
@@ -1354,7 +1375,7 @@ pub fn all_cases() -> Vec<&'static CaseDesc> {
     for u in [
         &user::UNIT, &user::UNIT_A, &user::NEWTYPE, &user::NEWTYPE_A, &user::TUPLE, &user::TUPLE_A, &user::NAMED, &user::NAMED_A,
         &user::UNITTYPE, &user::UNITTYPE_A, &user::UNITTUPLE, &user::UNITTUPLE_A, &user::PAIR, &user::PAIR_A,
-        &user::SEQ, &user::SEQ_A, &user::SEQNL, &user::SEQNL_A, &user::SKIPIF, &user::SKIPIF_A,
+        &user::SEQ, &user::SEQ_A, &user::SEQNL, &user::SEQNL_A, &user::SEQCOL, &user::SEQCOL_A, &user::SKIPIF, &user::SKIPIF_A,
     ] {
         v.push(u);
     }
